@@ -500,6 +500,22 @@ def judgeLine (j : J) (op : String) (outs : List String) : J × List String :=
             (List.range good.length).map fun k => (tbl, tb.rows.map (·.vals) ++ good.take (k + 1))
         ({ j with tainted := taint j tbl, prefixes := j.prefixes ++ pre }, [])
   | ["select", table] => judgeSelect j ((bytesOfHex table).getD []) outs
+  -- a statement run with a page cache too small for it (judge only): refused with "cache is full" is
+  -- fine, but then the table holds what it held
+  | "capstmt" :: _ =>
+    let out := outs.head?.getD ""
+    if out == "panic" || out == "hang" then ({ j with stopped := true }, [vio j s!"db:{out}:{phase j}" s!"op=[{(op.take 200).toString}]"])
+    else (j, [])
+  | ["capselect", table] =>
+    let tbl := (bytesOfHex table).getD []
+    match findTable j.sdb tbl, outs.find? (·.startsWith "rows") with
+    | some t, some rowsLine =>
+      let got := parseImplRows rowsLine
+      if got.map (·.2) == t.rows.map (·.vals) then ({ j with stopped := true }, [])
+      else ({ j with stopped := true },
+        [vio j "db:cache-full-statement-half-applied" s!"table={hexOrDash tbl} rows-before={t.rows.length} rows-after={got.length} got=[{(rowsLine.take 200).toString}]"])
+    | some _, none => ({ j with stopped := true }, [vio j "db:cache-full-statement-left-table-unreadable" s!"got=[{(" | ".intercalate outs).take 200}]"])
+    | none, _ => ({ j with stopped := true }, [])
   | ["roots"] => judgeRoots j outs
   | ["capcheck", cap] =>
     match outs.find? (·.startsWith "differs") with
